@@ -22,6 +22,7 @@ import (
 //   - the result is stored back to where x was loaded from (in-place edit of an owned slice:
 //     s.f = append(s.f[:i], s.f[i+1:]...)), or is the loop-carried value of x itself, or
 //   - x was allocated in this function and is not used again after the call.
+//
 // A parameter is judged at its static call sites (one level); an exported function's parameter is
 // the caller's memory.
 func ruleNoWriteThroughView(c *Ctx, rid string) {
@@ -368,7 +369,7 @@ func derefsGuarded(call *ssa.Call) (bool, string) {
 		}
 		guarded := false
 		for _, at := range factsAt(u.Block()) {
-			if at.Kind == "nil" && at.Pos && errEx != nil && at.X == ssa.Value(errEx) {
+			if at.Kind == "nil" && at.Pos && errEx != nil && (at.X == ssa.Value(errEx) || loadOfCellHolding(at.X, errEx)) {
 				guarded = true
 			}
 			if at.Kind == "nil" && !at.Pos && at.X == ssa.Value(val) {
@@ -641,4 +642,52 @@ func mutatesMessage(p *Program, fn *ssa.Function, roots []ssa.Value, depth int, 
 		}
 	})
 	return why
+}
+
+// loadOfCellHolding: v is a load of a local variable cell (an error variable captured by a closure
+// lives in one) read right after ex was stored into it: the store dominates the load and is the
+// last store to the cell before it in its block.
+func loadOfCellHolding(v ssa.Value, ex *ssa.Extract) bool {
+	ld, ok := v.(*ssa.UnOp)
+	if !ok || ld.Op != token.MUL {
+		return false
+	}
+	al, ok := ld.X.(*ssa.Alloc)
+	if !ok || ex.Referrers() == nil {
+		return false
+	}
+	for _, r := range *ex.Referrers() {
+		st, isSt := r.(*ssa.Store)
+		if !isSt || st.Addr != ssa.Value(al) || st.Val != ssa.Value(ex) {
+			continue
+		}
+		if st.Block() == ld.Block() {
+			seenStore := false
+			for _, ins := range st.Block().Instrs {
+				if ins == ssa.Instruction(st) {
+					seenStore = true
+					continue
+				}
+				if ins == ssa.Instruction(ld) {
+					return seenStore
+				}
+				if o, isO := ins.(*ssa.Store); isO && seenStore && o.Addr == ssa.Value(al) {
+					return false
+				}
+			}
+			return false
+		}
+		if st.Block().Dominates(ld.Block()) {
+			// no other store to the cell in the load's block before the load
+			for _, ins := range ld.Block().Instrs {
+				if ins == ssa.Instruction(ld) {
+					return true
+				}
+				if o, isO := ins.(*ssa.Store); isO && o.Addr == ssa.Value(al) {
+					return false
+				}
+			}
+		}
+	}
+	return false
 }
